@@ -10,7 +10,8 @@ import Mathlib.Algebra.Order.Field.Basic
 import Mathlib.Algebra.Polynomial.Derivative
 import Mathlib.Analysis.Calculus.Deriv.Polynomial
 import Mathlib.Analysis.Calculus.Deriv.MeanValue
-import Mathlib.Analysis.SpecialFunctions.Trigonometric.Deriv
+import Mathlib.Analysis.SpecialFunctions.Trigonometric.ArctanDeriv
+import Mathlib.Analysis.Real.Pi.Bounds
 import TfelVerif.Common.Sym
 
 namespace TfelVerif.C26
